@@ -483,8 +483,27 @@ WrapOps == {"map", "and_then", "filter", "inspect", "filter_map", "find", "find_
 PlainItems == {It(op, a) : op \in Ops, a \in Prims}
 WrapItems == {Wrap(op) : op \in WrapOps} \cup {Unwrap}
 
-\* which items extend chain c to a well-typed chain
-Extensions(c, alphabet) == {it \in alphabet : TyChain([c EXCEPT !.items = Append(c.items, it)]) # "bad"}
+\* A chain under construction may end inside wrappers that are still open; such a prefix is explorable when
+\* the type at the cursor (the parameter of the innermost open wrapper after its inner items) is defined, even
+\* if closing the wrapper right there would not type-check (`?> >>>` needs a bool-producing inner chain first).
+RECURSIVE OpenAtEnd0(_, _, _)
+OpenAtEnd0(items, i, open) ==
+  IF i > Len(items) THEN open
+  ELSE LET it == items[i]  o0 == IF it.deferred THEN 0 ELSE open IN
+       OpenAtEnd0(items, i + 1, IF it.op = "unwrap" THEN o0 - 1 ELSE IF it.mv = "wrap" THEN o0 + 1 ELSE o0)
+RECURSIVE CursorTy(_, _, _)
+CursorTy(nodes, t, k) ==
+  IF t = "bad" THEN "bad"
+  ELSE IF k = 0 THEN TyNodes(nodes, t)
+  ELSE IF nodes = <<>> THEN "bad"
+  ELSE LET last == nodes[Len(nodes)]
+           t1 == TyNodes(SubSeq(nodes, 1, Len(nodes) - 1), t)
+       IN  IF ~last.wrapped \/ t1 = "bad" THEN "bad" ELSE CursorTy(last.inner, WrapParam(t1, last.op), k - 1)
+PrefixOK(c) == Balanced(c.items, 1, 0) /\ CursorTy(Desugar(c.items), c.start, OpenAtEnd0(c.items, 1, 0)) # "bad"
+
+\* which items extend chain c to an explorable prefix
+Extensions(c, alphabet) == {it \in alphabet : PrefixOK([c EXCEPT !.items = Append(c.items, it)])}
+WellTyped == TyChain(chain) # "bad"
 
 ---------------------------------------------------------------------------
 \* exploration: the state graph is the set of well-typed chains of the family
@@ -523,12 +542,12 @@ TyOfVal(v) ==
     [] v.t = "seq" -> {"ItI", "ItOI", "ItP", "ItEP", "VI", "VOI", "VP", "VEP"}
     [] v.t = "pair" -> {"VV", "P", "EP"}
 TypeSafety ==
-  \A x \in Inputs(chain.start) : TyChain(chain) \in TyOfVal(Eval(chain, x).v)
+  WellTyped => \A x \in Inputs(chain.start) : TyChain(chain) \in TyOfVal(Eval(chain, x).v)
 
 \* (A) `??` passes its value through: removing every inspect item changes no value
 NoInspect(c) == [c EXCEPT !.items = SelectSeq(c.items, LAMBDA it : ~(it.op = "inspect" /\ it.mv = "none" /\ ~it.deferred))]
 PassThrough ==
-  (TyChain(NoInspect(chain)) = TyChain(chain)) =>
+  (WellTyped /\ TyChain(NoInspect(chain)) = TyChain(chain)) =>
      \A x \in Inputs(chain.start) : Eval(NoInspect(chain), x).v = Eval(chain, x).v
 
 \* (A) implicit closing equals explicit closing: appending `<<<` for every wrapper still open at
@@ -543,13 +562,13 @@ CloseN(items, n) == IF n = 0 THEN items ELSE CloseN(Append(items, Unwrap), n - 1
 ImplicitClose ==
   LET n == OpenAtEnd(chain.items, 1, 0)
       c2 == [chain EXCEPT !.items = CloseN(chain.items, n)]
-  IN  n > 0 => \A x \in Inputs(chain.start) : Eval(c2, x) = Eval(chain, x)
+  IN  (WellTyped /\ n > 0) => \A x \in Inputs(chain.start) : Eval(c2, x) = Eval(chain, x)
 
 \* emission: one line per chain with the expectation for every input
 Expect(c) == {[inp |-> x, out |-> Eval(c, x)] : x \in Inputs(c.start)}
 InputJson(x) == IF x.t = "iter" THEN Sq(x.v.src) ELSE x
 EmitChain ==
-  (Len(chain.items) > 0) =>
+  (Len(chain.items) > 0 /\ WellTyped) =>
      PrintT(<<"CHAIN", ToJson([start |-> chain.start, items |-> chain.items, ty |-> TyChain(chain),
                                 sites |-> SiteTys(Desugar(chain.items), chain.start), tree |-> Desugar(chain.items),
                                 cases |-> {[inp |-> InputJson(e.inp), v |-> e.out.v, calls |-> e.out.calls] : e \in Expect(chain)}])>>)
